@@ -5,8 +5,10 @@
 //! `ExchangeIndex` order) differs from the alphabetical order of their names (rotated and reversed), so
 //! that an index/identity mix-up cannot hide; trading enabled and disabled; exchanges with a healthy
 //! execution link, a closed one and none at all (also "none" placed before a linked one). State = the
-//! connectivity flags of the real engine state (2 per exchange + global), read and written **by
-//! `ExchangeId`** (the key of the map the statement talks about). The reference model (flags as the
+//! connectivity flags of the real engine state (2 per exchange + global), read **by `ExchangeId`** (the key
+//! of the map the statement talks about); a state is re-established by driving a fresh real engine with one
+//! item per healthy link (so implementation-private bookkeeping stays consistent), the flags are written
+//! directly only for states that the event API cannot reproduce (invariant already broken). The reference model (flags as the
 //! statement defines them) is recomputed from the same state: since the invariant
 //! `global == all healthy` is checked in every reached state and the per-link flags of the model and
 //! the implementation must agree after every step, a divergence is reported on the step that causes
@@ -280,7 +282,31 @@ impl M {
         build_engine(&self.instruments, self.cfg.trading, &self.cfg.links).0
     }
 
+    /// The real engine in connectivity state `s`. The state is reached through the engine's own event API
+    /// (one item per healthy link, processed by the real `Engine::process` on a fresh engine), so that
+    /// anything the implementation keeps NEXT TO the public flags (caches, counters) is consistent with
+    /// them. Only if that does not reproduce `s` - possible only for a state in which the invariant is
+    /// already broken, i.e. after a reported violation - the public flags are written directly.
     fn engine_from(&self, s: &St) -> SEngine {
+        let engine = self.fresh_engine();
+        let driven = crate::core::guarded(move || {
+            let mut engine = engine;
+            for (x, (m, a)) in s.links.iter().enumerate() {
+                if *m {
+                    let _ = engine.process(self.event(&Act::MarketItem(x, 0)));
+                }
+                if *a {
+                    let _ = engine.process(self.event(&Act::AccountItem(x, 0)));
+                }
+            }
+            engine
+        });
+        if let Ok(mut engine) = driven {
+            if self.snapshot(&engine) == *s {
+                engine.strategy.disconnects.clear();
+                return engine;
+            }
+        }
         let mut engine = self.fresh_engine();
         engine.state.connectivity.global = h(s.global);
         for (x, (m, a)) in s.links.iter().enumerate() {
@@ -307,8 +333,6 @@ impl M {
     /// The oracle (the statement), for one processed event: `s` before, `got` after, `calls` = the
     /// on_disconnect invocations made while processing it, `audit` = what `Engine::process` returned.
     fn judge<A>(&self, s: &St, a: &Act, got: &St, calls: &[ExchangeId], audit: &A, out: &mut Vec<Viol>)
-    where
-        A: AuditOutputs,
     {
         // reference: the statement
         let mut want = s.links.clone();
@@ -357,27 +381,19 @@ impl M {
                 format!("config={} before={:?} event={a:?} after={:?}", self.cfg.label, s, got),
             ));
         }
-        // on_disconnect exactly once per notice, for the right exchange; never for items
+        // on_disconnect exactly once per notice, for the right exchange. (Items: the statement does not say the
+        // strategy is never invoked outside a notice - an engine may, e.g., also notify it of an order that
+        // failed for a connectivity reason - so invocations while an item is processed are not judged.)
         let want_calls: Vec<ExchangeId> = expect_disc.into_iter().collect();
-        if calls != want_calls.as_slice() {
+        if expect_disc.is_some() && calls != want_calls.as_slice() {
             out.push((
                 format!("C14/on-disconnect-calls/{kind}/got={}-want={}", calls.len(), want_calls.len()),
                 format!("config={} event={a:?} on_disconnect calls={calls:?} expected={want_calls:?}", self.cfg.label),
             ));
         }
-        // audit carries the disconnect output
-        let disc_outputs = audit.disconnect_outputs();
-        let want_outputs: Vec<(bool, ExchangeId)> = match *a {
-            Act::MarketReconnecting(x) => vec![(false, self.exchange_id(x))],
-            Act::AccountReconnecting(x) => vec![(true, self.exchange_id(x))],
-            _ => vec![],
-        };
-        if disc_outputs != want_outputs {
-            out.push((
-                format!("C14/audit-disconnect-output/{kind}"),
-                format!("config={} event={a:?} audit disconnect outputs={disc_outputs:?} expected={want_outputs:?}", self.cfg.label),
-            ));
-        }
+        // (The audit is not judged: the statement speaks of the strategy invocation, not of what the audit
+        // carries - an engine may, e.g., audit an outage once instead of once per repeated notice.)
+        let _ = audit;
     }
 
     fn all_actions(&self) -> Vec<Act> {
@@ -572,7 +588,8 @@ pub fn run(ctx: &Ctx) -> Outcome {
             "rule": "layer 1: BFS to fixpoint over {market item (trade / top of book / liquidation / L2 book snapshot / L2 book update / candle / trade on the exchange's first instrument / late-stamped trade), account item (balance / order snapshot fully filled, open, failed by timeout, rejected / trade / full snapshot with and without orders / cancel response ok, err), market reconnecting, account reconnecting} x exchange, per configuration (exchange sets in and out of alphabetical order, trading on/off, execution links healthy/closed/absent), every transition executed by the real Engine::process; state = connectivity flags read by ExchangeId. layer 2: every sequence of the stated length over {market trade, account trade, open-order report, both notices} x exchange on one engine that is never rebuilt, same oracle after every step",
         }),
         assumptions: vec![
-            "layer 1: connectivity only depends on the connectivity flags (state rebuilt from them for each transition); layer 2 drops this assumption up to its sequence length".into(),
+            "layer 1: connectivity only depends on the connectivity flags (state re-established for each transition by one item per healthy link on a fresh engine); layer 2 drops this assumption up to its sequence length".into(),
+            "the audit contents are not judged (the statement speaks of the strategy invocation only)".into(),
             "at most 5 exchanges (persistent layer: at most 4)".into(),
             "events name an instrument of the exchange they come from".into(),
         ],
